@@ -274,6 +274,10 @@ where
             // Stop the write
             self.wait_not_busy(Delay::new_write())?;
             self.write_byte(STOP_TRAN_TOKEN)?;
+            // The card is now programming the last block. Wait for it here, with
+            // the write timeout: the next command would only wait for the
+            // (shorter) command timeout.
+            self.wait_not_busy(Delay::new_write())?;
         }
         Ok(())
     }
